@@ -205,6 +205,40 @@ fn templates(n: usize, k: i64, outer_x: bool) -> Vec<(String, E, Vec<(String, V)
         vec![("prog".to_string(), bin(Op::Mul, var("y"), ilit(2)))],
         true,
     ));
+    // stored programs that read the loop variable: each element sees its own value (a program
+    // reference is evaluated under the bindings in effect where it stands, every time)
+    out.push((
+        "program-reads-loopvar-map".to_string(),
+        method(l(), "map", vec![x(), var("twice")]),
+        base.clone(),
+        vec![("twice".to_string(), bin(Op::Mul, x(), ilit(2)))],
+        true,
+    ));
+    out.push((
+        "program-reads-loopvar-filter".to_string(),
+        method(l(), "filter", vec![x(), var("big")]),
+        base.clone(),
+        vec![("big".to_string(), bin(Op::Ge, x(), var("t")))],
+        true,
+    ));
+    out.push((
+        "program-reads-loopvar-reduce".to_string(),
+        method(l(), "reduce", vec![var("acc"), x(), var("step"), ilit(0)]),
+        base.clone(),
+        vec![("step".to_string(), bin(Op::Add, var("acc"), x()))],
+        true,
+    ));
+    out.push((
+        "program-reads-loopvar-twice".to_string(),
+        E::List(vec![
+            method(l(), "map", vec![x(), var("twice")]),
+            method(l(), "exists", vec![x(), bin(Op::Eq, var("twice"), bin(Op::Mul, var("t"), ilit(2)))]),
+            method(E::List(vec![ilit(5)]), "map", vec![x(), var("twice")]),
+        ]),
+        base.clone(),
+        vec![("twice".to_string(), bin(Op::Mul, x(), ilit(2)))],
+        true,
+    ));
     out
 }
 
